@@ -102,6 +102,7 @@ type checkCtx struct {
 	undecidedOK map[string]string // frontier: obligation name -> reason (sweeps only)
 	provedLedger map[string]bool
 	useLedger bool
+	frontierLedger map[string]bool // obligations known to be undecided on the unchanged tree
 	generated map[string]bool
 }
 
@@ -257,7 +258,7 @@ func runCheck(repo, prop, tier string, rest []string) int {
 			// a sweep obligation that is not in the ledger of proved obligations: it is a violation only when it
 			// replaces a proved obligation of the same function and kind that is no longer generated (edited code);
 			// otherwise it is undecided and not claimed
-			if !c.replacesProved(o) {
+			if c.frontierLedger[o.Name] || !c.replacesProved(o) {
 				undecided = append(undecided, o.Name)
 				total--
 				continue
@@ -552,6 +553,17 @@ func (c *checkCtx) replacesProved(o *Obligation) bool {
 		c.generated = map[string]bool{}
 		for _, j := range c.jobs {
 			c.generated[j.o.Name] = true
+		}
+	}
+	// the same obligation (function, kind, label) is proved in the ledger at another occurrence: this is a new
+	// program point of an obligation that holds everywhere else in this function on the unchanged tree
+	base := o.Name
+	if i := strings.LastIndex(base, "#"); i > 0 {
+		base = base[:i]
+	}
+	for name := range c.provedLedger {
+		if strings.HasPrefix(name, base+"#") {
+			return true
 		}
 	}
 	prefix := o.Func + "/" + o.Kind + "/"
